@@ -48,6 +48,14 @@ def engine(E):
     for nm in ('create_task', 'ensure_future'):
         ns.attrs[nm] = VStub('asyncio.' + nm, (lambda n: lambda E_, a, k: _unsupp('asyncio.%s of one awaitable' % n))(nm))
 
+    def plain_gather(E_, v, node):
+        E.oblige(E.cur_func + '/call.every_awaitable_runs_to_completion_whatever_fails', z3.BoolVal(False), props={'C20'},
+                 detail='gather(*aws) without return_exceptions=True raises the failure that happens FIRST IN TIME, at '
+                        'once, while the other awaitables are still running: neither "after all finish" nor "in input '
+                        'order"')
+        raise PathEnd()
+    Bn['__gather_first_failure_wins__'] = plain_gather
+
     def _any_all(name):
         def fn(E_, a, k):
             """any()/all() over the given awaitables: an Iterable may be one-shot -- looking at it consumes what
